@@ -4502,7 +4502,12 @@ func (t *Terminal) Loop() error {
 					if !t.previewQuit {
 						if err = cmd.Start(); err == nil {
 							started = true
-							t.previewKill = func() { util.KillCommand(cmd) }
+							t.previewKill = func() {
+								util.KillCommand(cmd)
+								// The process may exit before this goroutine gets to
+								// clean up after the command
+								removeFiles(tempFiles)
+							}
 						}
 					}
 					t.previewMutex.Unlock()
